@@ -115,7 +115,7 @@ def groups(prop, rng, tier):
         return torch.tensor(np.array([rng.randint(-9, 9) for _ in range(int(np.prod(shape)))], dtype=np.float64).reshape(shape), dtype=dt)
 
     if prop in ('C01', 'C14', 'C17', 'C07', 'C02', 'C16'):
-        for (wave, mode, N, J) in (('db2', 'zero', 32, 1), ('db2', 'periodization', 32, 1), ('haar', 'symmetric', 24, 1), ('db3', 'zero', 96, 2), ('db2', 'reflect', 30, 1)):
+        for (wave, mode, N, J) in (('db2', 'zero', 32, 1), ('db2', 'periodization', 32, 1), ('haar', 'symmetric', 24, 1), ('db3', 'zero', 96, 2), ('db2', 'reflect', 30, 1), ('db2', 'zero', 33, 1), ('db2', 'periodization', 35, 1), ('db2', 'zero', 50, 2)):
             w = pywt.Wavelet(wave); Lm = w.dec_len
             if prop == 'C14':
                 w2 = pywt.Wavelet('db1'); wv = (w.dec_lo, w.dec_hi, w2.dec_lo, w2.dec_hi)
@@ -410,7 +410,7 @@ def mutate_after(ck, name, call, x, replay):
     ck.oracle_ok(('mutate-after', name), group='input-overwritten', sample={'what': 'input overwritten in place before backward: ' + name})
 
 
-def cot_confine(ck, name, call, x, replay):
+def cot_confine(ck, name, call, x, replay, info=None, Lmax=0, circular=False):
     """a cotangent that is non-finite in ONE entry of ONE batch item: the gradients of the other batch items are bit-identical to those
     of the finite cotangent (batch items never meet in any of these transforms, forward or backward)"""
     import torch
@@ -436,6 +436,34 @@ def cot_confine(ck, name, call, x, replay):
                 got = grads(val)
             except Exception as e:
                 ck.fail('special values: backward of %s with %r in one cotangent entry of batch item 0 raises %s' % (name, val, type(e).__name__), dict(replay, value=repr(val))); return
+            # ... and inside batch item 0: the other channels, and every pixel further from the poisoned coefficient than its cone
+            if info is not None and not name.startswith('Scat'):
+                with torch.no_grad():
+                    outs0 = [o for o in _tensors(call(x), []) if o.numel()]
+                kk = len(outs0) - 1
+                inf_ = info(kk, outs0[kk].numpy())
+                if inf_ is not None:
+                    (bax, cax), hw, j, scale, _c, n_in = inf_
+                    pidx = (0,) + tuple(d // 2 for d in outs0[kk].shape[1:])
+                    keep = np.zeros(base.shape[1:], dtype=bool)
+                    if cax is not None:
+                        m = np.ones(base.shape[1], dtype=bool); m[pidx[cax]] = False
+                        keep |= m.reshape([-1] + [1] * (base.ndim - 2))
+                    R = (2 ** j) * (Lmax + 2)
+                    for ax_in, ax_out in zip(range(2, base.ndim), hw):
+                        n = base.shape[ax_in]
+                        d = np.abs(np.arange(n) + 0.5 - (pidx[ax_out] + 0.5) * scale)
+                        if circular:
+                            d = np.minimum(d, n - d)
+                        sh = [1] * (base.ndim - 1); sh[ax_in - 1] = n
+                        keep |= (d > R).reshape(sh)
+                    a0, b0 = base[0], got[0]
+                    bad0 = keep & ~((a0 == b0) | (np.isnan(a0) & np.isnan(b0)))
+                    if bad0.any():
+                        idx = tuple(int(v[0]) for v in np.nonzero(bad0))
+                        ck.fail('special values: backward of %s: %r in the cotangent of coefficient %s of output %d changes the gradient at %s of the same batch item, outside the dependence cone of that coefficient (another channel or more than %d samples away): %r instead of %r [%d such entries]'
+                                % (name, val, pidx, kk, idx, R, float(b0[idx]), float(a0[idx]), int(bad0.sum())), dict(replay, value=repr(val)))
+                        return
             a, b = base[1:], got[1:]
             same = (a == b) | (np.isnan(a) & np.isnan(b))
             if not same.all():
@@ -539,5 +567,5 @@ def run_for(ck, prop, only=None):
         rt.guard(ck, forms, ck, name, call, x, {'oracle': 'locality', 'prop': prop, 'group': name}, call_all)
         rt.guard(ck, transforms, ck, name, call, x, {'oracle': 'locality', 'prop': prop, 'group': name})
         if prop in ('C05', 'C06', 'C09', 'C15'):
-            rt.guard(ck, cot_confine, ck, name, call, x, {'oracle': 'locality', 'prop': prop, 'group': name})
+            rt.guard(ck, cot_confine, ck, name, call, x, {'oracle': 'locality', 'prop': prop, 'group': name}, info, Lm, circular)
             rt.guard(ck, mutate_after, ck, name, call, x, {'oracle': 'locality', 'prop': prop, 'group': name})
